@@ -95,7 +95,8 @@ def ensure_driver():
             raise InfraError("driver build failed:\n" + r.stderr[-4000:])
 
 
-def _prune_cache(keep=8):
+def _prune_cache(keep=None, keep_name=None):
+    keep = keep or int(os.environ.get("VERIF_CACHE_KEEP", "8"))
     d = os.path.join(CACHE, "facts")
     try:
         ents = [(os.path.getmtime(os.path.join(d, e)), e) for e in os.listdir(d)]
@@ -103,7 +104,8 @@ def _prune_cache(keep=8):
         return
     ents.sort(reverse=True)
     for _, e in ents[keep:]:
-        shutil.rmtree(os.path.join(d, e), ignore_errors=True)
+        if e != keep_name:
+            shutil.rmtree(os.path.join(d, e), ignore_errors=True)
 
 
 import contextlib
@@ -128,6 +130,10 @@ def facts_path(config, root=None, locked=False):
     outdir = os.path.join(CACHE, "facts", th, config)
     fact = os.path.join(outdir, "specs.facts.json")
     if os.path.exists(fact) and os.path.exists(os.path.join(outdir, "ok")):
+        try:
+            os.utime(os.path.join(CACHE, "facts", th))   # most recently used: the last to be pruned
+        except OSError:
+            pass
         return fact
     ensure_driver()
     os.makedirs(outdir, exist_ok=True)
@@ -172,7 +178,7 @@ def facts_path(config, root=None, locked=False):
             fh.write(th)
         with open(os.path.join(outdir, "ok"), "w") as fh:
             fh.write("%.1f\n" % (time.time() - t0))
-        _prune_cache()
+        _prune_cache(keep_name=th)
     return fact
 
 
@@ -280,8 +286,19 @@ def shapes_facts(tier="quick", root=None):
                     if "could not compile `shapes`" not in r.stderr:
                         raise InfraError("the tree (specs / specs-derive) does not compile, nothing analysed:\n" + r.stderr[-4000:])
                     return None, {"error": r.stderr[-6000:], "manifest": manifest}
+    _prune_dir(os.path.join(CACHE, "shapes-facts"), int(os.environ.get("VERIF_CACHE_KEEP", "8")), keep_path=outdir)
     with open(fact) as fh:
         return json.load(fh), manifest
+
+
+def _prune_dir(d, keep, keep_path=None):
+    try:
+        ents = sorted(((os.path.getmtime(os.path.join(d, e)), e) for e in os.listdir(d)), reverse=True)
+    except OSError:
+        return
+    for _, e in ents[keep:]:
+        if os.path.join(d, e) != keep_path:
+            shutil.rmtree(os.path.join(d, e), ignore_errors=True)
 
 
 if __name__ == "__main__":
